@@ -90,13 +90,30 @@ func genAllotCase(r *rand.Rand, id int) *Case {
 	remAt := r.Intn(k)
 	items := make([]J, k)
 	nvars := 0
+	// the same portion variable in two clauses of one allotment
+	dupI, dupJ := -1, -1
+	if k >= 2 && r.Intn(5) == 0 {
+		i, j := r.Intn(k), r.Intn(k)
+		if i != j && (parts[i]+parts[j])%2 == 0 && !(useRem && (i == remAt || j == remAt)) {
+			h := (parts[i] + parts[j]) / 2
+			parts[i], parts[j] = h, h
+			dupI, dupJ = i, j
+			if i > j {
+				dupI, dupJ = j, i
+			}
+		}
+	}
 	for i := 0; i < k; i++ {
 		if useRem && i == remAt {
 			items[i] = eRemaining()
 			continue
 		}
+		if i == dupJ && items[dupI] != nil && items[dupI]["k"] == "var" {
+			items[i] = eVar(items[dupI]["name"].(string))
+			continue
+		}
 		p := portionSpelling(r, parts[i], L)
-		if r.Intn(5) == 0 && p["n"].(int) <= p["d"].(int) {
+		if (r.Intn(5) == 0 || i == dupI) && p["n"].(int) <= p["d"].(int) {
 			// hand the portion over as a variable
 			name := fmt.Sprintf("p%c", 'a'+nvars)
 			nvars++
@@ -132,7 +149,17 @@ func genAllotCase(r *rand.Rand, id int) *Case {
 	if srcSide {
 		it := []any{}
 		for i, p := range items {
-			it = append(it, J{"p": p, "s": J{"k": "ovdu", "e": eAcct(fmt.Sprintf("s%d", i))}})
+			var sub J = J{"k": "ovdu", "e": eAcct(fmt.Sprintf("s%d", i))}
+			if r.Intn(6) == 0 {
+				// an allotment nested in a clause (its shares are computed while the outer ones are still in use)
+				sub = J{"k": "allot", "it": []any{
+					J{"p": J{"k": "portion", "n": 1, "d": 4, "txt": "1/4"}, "s": J{"k": "ovdu", "e": eAcct(fmt.Sprintf("s%da", i))}},
+					J{"p": J{"k": "portion", "n": 3, "d": 4, "txt": "3/4"}, "s": J{"k": "ovdu", "e": eAcct(fmt.Sprintf("s%db", i))}}}}
+				if r.Intn(2) == 0 {
+					sub = J{"k": "seq", "s": []any{sub}}
+				}
+			}
+			it = append(it, J{"p": p, "s": sub})
 		}
 		src = J{"k": "allot", "it": it}
 		dst = J{"k": "acct", "e": eAcct("d")}
@@ -142,6 +169,10 @@ func genAllotCase(r *rand.Rand, id int) *Case {
 			var to J = J{"k": "acct", "e": eAcct(fmt.Sprintf("d%d", i))}
 			if r.Intn(10) == 0 {
 				to = J{"k": "kept"}
+			} else if r.Intn(8) == 0 {
+				to = J{"k": "allot", "it": []any{
+					J{"p": J{"k": "portion", "n": 1, "d": 3, "txt": "1/3"}, "to": J{"k": "acct", "e": eAcct(fmt.Sprintf("d%da", i))}},
+					J{"p": J{"k": "remaining"}, "to": J{"k": "acct", "e": eAcct(fmt.Sprintf("d%db", i))}}}}
 			}
 			it = append(it, J{"p": p, "to": to})
 		}
